@@ -290,6 +290,9 @@ def _vo(rng, mode):
     return _coord(rng, mode)
 
 
+INSIDE_EPS = 0.125
+
+
 def gen_case(rng, tier):
     if rng.random() < 0.03:
         return gen_penerror_case(rng, tier)
@@ -769,11 +772,16 @@ class Impl(object):
         if k == "inside":
             _, kind, name, i, x, y, eo = op
             pt = (pynum(x), pynum(y))
-            if kind == "c":
-                return bool(g[i].pointInside(pt, evenOdd=eo))
-            if kind == "k":
-                return bool(g.components[i].pointInside(pt, evenOdd=eo))
-            return bool(g.pointInside(pt, evenOdd=eo))
+            target = g[i] if kind == "c" else (g.components[i] if kind == "k" else g)
+            res = bool(target.pointInside(pt, evenOdd=eo))
+            # the same question just below and just above (for the oracle: a probe whose horizontal ray only grazes a
+            # curve is told apart from a wrong answer by its neighbours)
+            try:
+                self.inside_neighbours = (bool(target.pointInside((pt[0], pt[1] - INSIDE_EPS), evenOdd=eo)),
+                                          bool(target.pointInside((pt[0], pt[1] + INSIDE_EPS), evenOdd=eo)))
+            except Exception:
+                self.inside_neighbours = None
+            return res
         raise ValueError(op)
 
 
@@ -860,6 +868,7 @@ def run_impl(case):
         if not viol:
             orc.real = impl.raw
             orc.twice_mid = impl.mid
+            orc.inside_neighbours = getattr(impl, "inside_neighbours", None)
             for v in orc.judge(op, val, errname, after):
                 v["step"] = step
                 v["op"] = op
@@ -1193,6 +1202,7 @@ class Oracle(object):
             mode = "float"
         self.mode = mode
         self.tol = 0.0 if mode == "exact" else 1e-9
+        self.inside_neighbours = None
 
     # -- helper used by the adaptor: replace a float area by the exact one when they agree --------
     def snap_area(self, kind, g, index, value):
@@ -1385,7 +1395,19 @@ class Oracle(object):
                 return
             exp = (wn % 2 == 1) if eo else (wn != 0)
             if bool(val) != exp:
-                yield self.v("point-inside-agrees", kind + (".evenodd" if eo else ""), exp, val)
+                site = kind + (".evenodd" if eo else "")
+                nb = self.inside_neighbours
+                if curved and nb is not None:
+                    # is this a probe whose ray touches a curve without crossing it?  Then the outline says the same just
+                    # below and just above, and so does the implementation there
+                    fpt = (float(pt[0]), float(pt[1]))
+                    exps = []
+                    for dy in (-INSIDE_EPS, INSIDE_EPS):
+                        w2 = winding(paths, (fpt[0], fpt[1] + dy), 64)
+                        exps.append(None if w2 is None else ((w2 % 2 == 1) if eo else (w2 != 0)))
+                    if exps == [exp, exp] and list(nb) == [exp, exp]:
+                        site = "ray-grazes-a-curve"
+                yield self.v("point-inside-agrees", site, exp, val)
             return
         # ---------------- mutations ----------------
         if errname and k in ("setWidth", "setHeight", "setVO"):
@@ -1621,3 +1643,19 @@ class Oracle(object):
         for s2 in ("left", "right") if dim == "height" else ("bottom", "top"):
             if not self.same(m1[s2], m0[s2], tol):
                 yield self.v("margin-keeps-other-axis", side + "." + s2, m0[s2], m1[s2])
+
+
+# ---------------------------------------------------------------------------------------
+# known finding F61: a probe whose horizontal ray touches a curve without crossing it is counted as one crossing by
+# fontTools' PointInsidePen (Contour / Component / Glyph.pointInside delegate to it): a point far outside the outline
+# is reported inside.  The witness below is the history the thorough tier found; it is replayed on every run.
+# ---------------------------------------------------------------------------------------
+
+F61_WITNESS = {'mode': 'exact', 'ops': [['newGlyph', 'k0', 566, 314, 649, [[[337, 235, None, False, None, None], ['3319/8', '399/2', None, False, None, None], [281.0, 171.0, None, False, None, None], [359, 244, 'qcurve', False, 'a', None], [309.0, 313, None, False, None, None], [414, 194, None, False, None, None], [291.0, '1627/8', 'qcurve', True, None, None], [352, '1745/8', None, False, None, None], [352.0, 301.0, None, False, None, None], [352, '361/2', 'curve', True, None, 'id1'], ['2341/8', '1643/8', 'curve', True, None, None], ['2707/8', 148, None, False, 'b', None], ['3369/8', 286, None, False, 'b', None], ['547/2', 213, 'curve', False, None, None]]], [['g0', 1, 0, 0, -1, '-2033/8', 226]], [], [0, 0]], ['cSetClockwise', 'k0', 0, False], ['inside', 'c', 'k0', 0, '-37/4', '741/4', True]]}
+
+
+def replay_known(entry):
+    if entry.get("signature") != "C17/point-inside-agrees/ray-grazes-a-curve":
+        return False
+    r = run_impl(F61_WITNESS)
+    return any(v.get("signature") == entry["signature"] for v in r["viol"])
